@@ -1,0 +1,13 @@
+//go:build verif
+
+package pool
+
+// VerifHook is installed by the verification harness (only with build tag verif).
+// It is called at the points marked verifHook(...) with an event name and the object concerned.
+var VerifHook func(ev string, obj any)
+
+func verifHook(ev string, obj any) {
+	if h := VerifHook; h != nil {
+		h(ev, obj)
+	}
+}
